@@ -58,6 +58,23 @@ fn plain_mutations(nrounds: usize, nsteps: usize, ncaps: usize) -> Vec<Mut<Pwpi>
     vec_muts(&mut m, "openings.lookup_zs_next", |p: &mut Pwpi| Some(&mut p.proof.openings.lookup_zs_next), e0);
     vec_muts(&mut m, "public_inputs", |p: &mut Pwpi| Some(&mut p.public_inputs), F::ZERO);
     vec_muts(&mut m, "final_poly", |p: &mut Pwpi| Some(&mut p.proof.opening_proof.final_poly.coeffs), e0);
+    // one element MOVED from one opening vector to another: every total (all openings, the batch at zeta, the
+    // batch at g*zeta) keeps its length, only the individual vectors are wrong
+    fn opening_vec(p: &mut Pwpi, k: usize) -> &mut Vec<QuadraticExtension<F>> {
+        let o = &mut p.proof.openings;
+        match k { 0 => &mut o.constants, 1 => &mut o.plonk_sigmas, 2 => &mut o.wires, 3 => &mut o.plonk_zs, 4 => &mut o.plonk_zs_next,
+                  5 => &mut o.partial_products, 6 => &mut o.quotient_polys, 7 => &mut o.lookup_zs, _ => &mut o.lookup_zs_next }
+    }
+    const ONAMES: [&str; 9] = ["constants", "plonk_sigmas", "wires", "plonk_zs", "plonk_zs_next", "partial_products", "quotient_polys", "lookup_zs", "lookup_zs_next"];
+    for a in 0..9usize {
+        for b in 0..9usize {
+            if a == b { continue; }
+            m.push((format!("openings: move last of {} to {}", ONAMES[a], ONAMES[b]), Box::new(move |p| {
+                if let Some(x) = opening_vec(p, a).pop() { opening_vec(p, b).push(x) } else { let z = QuadraticExtension::<F>::ZERO; opening_vec(p, b).push(z); opening_vec(p, b).push(z) }
+            })));
+        }
+    }
+    m.push(("caps: move last of wires_cap to quotient_polys_cap".into(), Box::new(|p| { if let Some(x) = p.proof.wires_cap.0.pop() { p.proof.quotient_polys_cap.0.push(x) } })));
     m.push(("commit_phase_merkle_caps: empty".into(), Box::new(|p| p.proof.opening_proof.commit_phase_merkle_caps.clear())));
     m.push(("commit_phase_merkle_caps: drop last".into(), Box::new(|p| { p.proof.opening_proof.commit_phase_merkle_caps.pop(); })));
     m.push(("commit_phase_merkle_caps: duplicate last".into(), Box::new(|p| {
